@@ -997,7 +997,13 @@ def _read_str(ctx: ReaderContext, raw_string: bool = False) -> str:
         if char == "\\":
             char = reader.next_char()
             if raw_string:
+                # escape sequences are kept as written, but an escaped character -- a
+                # double quote in particular -- never terminates the literal
+                if char == "":
+                    raise ctx.eof_error("Unexpected EOF in string")
                 s.append("\\")
+                s.append(char)
+                continue
             elif (escape_char := _STR_ESCAPE_CHARS.get(char, None)) is not None:
                 s.append(escape_char)
                 continue
